@@ -70,7 +70,15 @@ def run(ctx):
                    samples=recs[:3] + [x for x in recs if x["got"] == "ok"][:2],
                    exhaustive=not q)
     ctx.assumptions += ["IP and SCION clients (same-AS empty path, no SPAO: see C13); the NTS clause is replayed on the "
-                        "wire for the IP client (real NTS-KE and NTP servers behind a proxy), not for the SCION client",
+                        "wire for the IP client (real NTS-KE and NTP servers behind a proxy); for the SCION client only in the association "
+                        "driver (genuine / plain / old-keys responses), not with the full space of crafted datagrams",
+                        "association driver: the key exchange of both clients runs over TLS against the scripted peer of "
+                        "harness/c05nts/kepeer (the SCION client with Fetcher.QUIC.Enabled = false; a key exchange over QUIC/SCION is not "
+                        "driven here - the gate in client_scion.go only sees FetchData's error); 'refused' = nothing listens, 'reset' = "
+                        "closed before the handshake, 'tlsfail' = the peer speaks TLS 1.2 only, 'noalpn' = handshake without ntske/1, "
+                        "'errrec' = error record (sometimes after cookies), 'nocookies', 'truncated' = stream ends inside the message; "
+                        "a call that returns no error and the zero time (MeasureClockOffsetSCION after a round of failures) is not "
+                        "counted as a reported measurement",
                         "a datagram from the server's address and another port counts as 'from the queried server' "
                         "(the code compares addresses; the statement names no port)",
                         "what the client did with a datagram is decided without its log: ok = the measurement call returned a "
